@@ -349,7 +349,7 @@ func Run(c *engine.Ctx) {
 	c.Add("states", evals)
 	c.Add("transitions", evals)
 	c.Add("traces_validated_against_impl", evals)
-	c.Cov["rule"] = "etype(6) x credential {keytab,password} x exchange {AS, AS after PREAUTH_REQUIRED, TGS} x perturbation (34 field perturbations + ciphertext bit flips: all bits of the first and last 16 bytes for etype 18/keytab, 6 sample bits elsewhere); stale replies; KRB-ERROR codes 0..100 and 3 unassigned for AS and TGS; ASRep.Verify with requested addresses. distinct = (etype, credential, exchange, perturbation class, accepted?) cells whose outcome matched"
+	c.Cov["rule"] = "etype(6) x credential {keytab,password} x exchange {AS, AS after PREAUTH_REQUIRED, TGS} x world variant {plain; for etypes 18/23 also: UDP answers RESPONSE_TOO_BIG, two-component principal with sibling keytab entry, canonicalize, forwardable+proxiable, explicit advertised salt (password)} x perturbation (field perturbations, enc-part plaintext cut at every offset (etype 18/keytab) or 10 sample offsets, foreign enc-part application tags + ciphertext bit flips: all bits of the first and last 16 bytes for etype 18/keytab, 6 sample bits elsewhere); stale replies; KRB-ERROR codes 0..100 and 3 unassigned for AS and TGS; ASRep.Verify with requested addresses. distinct = (etype, credential, exchange, perturbation class, accepted?) cells whose outcome matched"
 }
 
 var digits = regexp.MustCompile(`-?\d+$`)
